@@ -293,3 +293,24 @@ Example C10_program_example : forall cs,
     /\ snd (ed_run (x_root cs) red_new (x_prog [9; 8; 2])) = repeat true 27
     /\ ed_program_sign x_len x_len (x_root cs) (x_prog [9; 2]) [1; 2; 3; 20] = None.
 Proof. exact program_example. Qed.
+
+(* signing the role under edit back into the tree (sign_targets_editor for a delegated role: the first role
+   of that name in pre-order gets the new document, replace_role) gives that role the document under the
+   header its delegating role has for it ... *)
+Theorem C10_role_update_sets : forall d top name top',
+  replace_role name d top = Some top' ->
+  exists c, find_role_in name top = Some c /\ find_role_in name top' = Some (set_content c d).
+Proof. exact replace_role_sets. Qed.
+Print Assumptions C10_role_update_sets.
+
+(* ... and changes nothing any other role says itself - header, version, expiration, targets, key table,
+   signers, names of its delegated roles - (other = not that role, not below it before, not below it after) *)
+Theorem C10_role_update_frame : forall d top name top' c m,
+  replace_role name d top = Some top' ->
+  find_role_in name top = Some c ->
+  m <> name ->
+  ~ In m (names (all_roles (en_children c))) ->
+  ~ In m (names (all_roles (en_children d))) ->
+  option_map shallow (find_role_in m top') = option_map shallow (find_role_in m top).
+Proof. exact replace_role_frame. Qed.
+Print Assumptions C10_role_update_frame.
